@@ -1,3 +1,61 @@
+"""C09: the sim engine plus a metamorphic twin - the same program in which every request that must be rejected is not made at all."""
+from __future__ import annotations
+
+from typing import List
+
+from .simprop import SimEngine
 from .table import make
 
-ENGINE = make("C09")
+FIELDS = ("tid", "rank", "how", "cancels", "ecb", "ccb")
+
+
+class C09Engine(SimEngine):
+    def run_case(self, case: dict) -> dict:
+        from ..sim.interp import Run
+        res = Run(case).execute()
+        out = {"violations": list(res.violations), "labels": list(res.labels), "stats": dict(res.stats),
+               "inconclusive": res.inconclusive, "error": res.error}
+        if res.lib_error:
+            out["violations"].append({"props": ["C09"], "clause": "library/undocumented-exception-escaped", "detail": res.lib_error, "opno": -1})
+            return out
+        if res.error or res.inconclusive or not any(l.startswith("rejected:") for l in res.labels):
+            return out
+        twin = Run(dict(case, suppress_rejected=True)).execute()
+        if twin.error or twin.inconclusive or twin.lib_error:
+            out["stats"]["twin_inconclusive"] = 1
+            return out
+        out["labels"].append("twin:compared")
+        diffs: List[str] = []
+        if res.requests != twin.requests:
+            a, b = res.requests, twin.requests
+            for i in range(max(len(a), len(b))):
+                x, y = (a[i] if i < len(a) else None), (b[i] if i < len(b) else None)
+                if x != y:
+                    diffs.append(f"request {i}: {x} with the rejected requests, {y} without them")
+                    break
+        ha = {(h["pool"], h["rid"], h["idx"]): h for h in res.history}
+        hb = {(h["pool"], h["rid"], h["idx"]): h for h in twin.history}
+        for k in sorted(set(ha) | set(hb)):
+            x, y = ha.get(k), hb.get(k)
+            if x is None or y is None:
+                diffs.append(f"invocation r{k[1]}[{k[2]}] exists only {'with' if y is None else 'without'} the rejected requests")
+                continue
+            for f in FIELDS:
+                if x[f] != y[f]:
+                    diffs.append(f"r{k[1]}[{k[2]}].{f}: {x[f]!r} with the rejected requests, {y[f]!r} without them")
+        if diffs:
+            out["violations"].append({"props": ["C09"], "clause": "twin/rejected-requests-left-a-trace", "detail": "; ".join(diffs[:3]), "opno": -1})
+        return out
+
+
+def _engine() -> C09Engine:
+    base = make("C09")
+    eng = C09Engine(base.pid, base.rule + " Every program in which something was rejected is run twice: as generated, and with each "
+                    "request that must be rejected not made at all; accepted requests and all invocations must have the identical observable "
+                    "history (group, ids, start order, outcome, cancellations, callback counts).",
+                    base.profiles, base._nontrivial, base.n["quick"], base.n["thorough"], floors=dict(base._floors, **{"twin:compared": 0.3}),
+                    sweep=base._sweep)
+    return eng
+
+
+ENGINE = _engine()
